@@ -358,6 +358,12 @@ pub fn full_budget_bodies(tier: &str, rng: &mut Prng, ops: &mut Vec<Case>) {
 pub fn generate_c05(tier: &str, rng: &mut Prng) -> Vec<Case> {
     let mut ops = vec![];
     full_budget_bodies(tier, rng, &mut ops);
+    // what `sign` returns when its retry loops run (bases on which the compression fails often) and on ordinary keys: the
+    // real code against the model of `sign`, whose signatures are proved to have the fixed size and to decode
+    for n in [512usize, 1024] {
+        crate::c01::sign_basis_ops(n, &[5u8, 5, n as u8 / 4], if tier == "thorough" { 8 } else { 2 }, rng, &mut ops);
+        crate::c01::sign_model_ops(n, &[5u8, 5, n as u8 / 4], if tier == "thorough" { 4 } else { 1 }, rng, &mut ops);
+    }
     let per = if tier == "thorough" { 40 } else { 2 };
     for n in [512usize, 1024] {
         let tag = if n == 512 { 2u8 } else { 3u8 };
@@ -461,6 +467,7 @@ pub fn op_sk_fields(n: usize, f: &[i64], g: &[i64], cf: &[i64]) -> String {
 pub fn oracle_c05(op: &[&str], out: &str) -> Verdict {
     match op[0] {
         "compress" => crate::c07::oracle(op, out),
+        "sign_model" => crate::c01::oracle_sign_model(op, out),
         "sk_roundtrip" => {
             let want = if op[1] == "512" { "1281 897 666 true true true true" } else { "2305 1793 1280 true true true true" };
             if out == want {
